@@ -41,6 +41,9 @@ fn edge_passwords(ctx: &Ctx) {
         "line\n".into(), "crlf\r\n".into(), "\n".into(), "\r".into(), "\r\n".into(), "two\n\n".into(), "\nleading-newline".into(), "in\nside".into(),
         "tab\t".into(), "\ttab".into(), "space ".into(), " space".into(), "  ".into(), "nbsp\u{a0}".into(), "\u{2028}line-sep".into(), "vt\u{b}".into(), "ff\u{c}".into(), "bell\u{7}".into(),
         "esc\u{1b}[0m".into(), "del\u{7f}".into(), "bom\u{feff}".into(), "caf\u{e9}".into(), "cafe\u{301}".into(),
+        // lengths at the HMAC-SHA-256 block size (the key derivation keys an HMAC with the password): 63, 64, 65 bytes in
+        // ASCII and 64 bytes made of 32 two-byte characters
+        "a".repeat(63), "b".repeat(64), "c".repeat(65), "\u{e9}".repeat(32), format!("{}\u{e9}", "d".repeat(62)), "e".repeat(128),
         // shapes that configuration-file or shell conventions would "clean up": quotes, escapes, variable references, comments
         "\"quoted\"".into(), "'single'".into(), "\"\"".into(), "''".into(), "\"open".into(), "back\\slash".into(), "trail\\".into(), "$HOME".into(), "${KESTREL_PASSWORD}".into(), "%PATH%".into(),
         "#hash first".into(), "semi;colon".into(), "a=b".into(), "=lead".into(), "~tilde".into(), "per%41cent".into(), "plus+sign".into(), "-dash-first".into(), "--env-pass".into(),
